@@ -328,6 +328,31 @@ pub fn extremal(tier: Tier) -> u64 {
             n += 1;
         }
     }
+    // the public node counter at every small depth (0 included) on every extremal position (crash
+    // probe only: its value is owned by no property)
+    for f in odd_but_accepted.iter().chain(["4k3/8/8/8/8/8/8/4K3 w - - 0 1", "7k/5Q2/6K1/8/8/8/8/8 b - - 0 1"].iter()) {
+        let Ok(b) = parse_board(f) else { continue };
+        for depth in 0..=2usize {
+            set_case(|| json!({"property": "C07", "case": {"kind": "perft", "fen": f, "depth": depth}}).to_string());
+            // a panic is reported by the hook; keep going so the later probes still run
+            let _ = std::panic::catch_unwind(|| b.perft_test(depth));
+            n += 1;
+        }
+    }
+    // the wall-clock timeout at the boundary values of its argument
+    for d in [std::time::Duration::ZERO, std::time::Duration::from_nanos(1), std::time::Duration::from_secs(1), std::time::Duration::from_secs(u32::MAX as u64), std::time::Duration::from_secs(u64::MAX / 2), std::time::Duration::MAX] {
+        set_case(|| json!({"property": "C07", "case": {"kind": "duration-timeout", "secs": d.as_secs(), "nanos": d.subsec_nanos()}}).to_string());
+        let _ = std::panic::catch_unwind(|| {
+            let t = chess_engine::DurationTimeout::new(d);
+            let _ = chess_engine::Timeout::is_complete(&t);
+            // a finished game: the search returns by itself whatever the deadline
+            let b = parse_board("7k/5Q2/6K1/8/8/8/8/8 b - - 0 1").unwrap();
+            let mut e = Engine::default();
+            e.max_depth = 3;
+            let _ = e.search(&b, &ThreeFold::new(), &t);
+        });
+        n += 1;
+    }
     // boards the builder assembles with every boundary value of its two u16 clocks (the builder
     // takes the whole u16 range, the parser only four digits), driven two plies through every
     // safe operation: the counters are incremented by every quiet move / every black move
